@@ -3,6 +3,8 @@ import DuneVerif.Proofs.C09LU
 import DuneVerif.Proofs.C09Layer
 import DuneVerif.Proofs.C09Defaults
 import DuneVerif.Proofs.C09Chk
+import DuneVerif.Proofs.C09LUT
+import DuneVerif.Proofs.C09K
 import DuneVerif.Gen.C09Lanes
 /-!
 # C09 — SIMD types are lane-wise transparent, also through the dense-matrix algorithms
@@ -716,5 +718,166 @@ example : solveC (SimdLike.loop 2) intArith (some belowOne) true mixed3 #v[#v[1,
 -- … and with both lanes regular it returns the lane-wise solution
 example : solveC (SimdLike.loop 2) intArith (some belowOne) true regular3 #v[#v[1, 1], #v[2, 1], #v[3, 1]]
     = some #v[#v[1, 1], #v[1, 1], #v[1, 1]] := by decide +kernel
+
+-- ------------------------------------------------------------------------------------------------
+-- 8. (round 4) the control decisions of luDecomposition / ElimDet / ElimPivot / determinant / solve / invert are TRANSLATED:
+--    `Gen.luCtl` is read off densematrix.hh on every run, `determinantT` … `invertCT` (Model/C09LUT.lean, what the driver runs)
+--    execute it.  The theorems below are about these translated algorithms.
+-- ------------------------------------------------------------------------------------------------
+section TranslatedLU
+variable {V : Type → Type} {L : Nat} (X : SimdLike V L) (hX : X.Lawful) {K : Type} (R : Arith K) {n : Nat}
+
+/-- what the translator found in densematrix.hh is the canonical control: pivot search over the rows below the diagonal with
+    `abs > pivmax`, `pivmax = cond(mask, abs, pivmax)`, `imax = cond(mask, k, imax)`; `nonsingularLanes && (pivmax != 0)`;
+    `throwEarly`: throw iff not ALL lanes nonsingular, otherwise return early iff NO lane nonsingular; elimination below and right of
+    the pivot; the sign flips (`cond(i == j, 1, -1)`) and the pivot is recorded (`cond(i == j, pivot[i], j)`) per lane; `solve`
+    and `invert` throw early, `determinant` does not and masks its singular lanes with `cond(nonsingularLanes, det, 0)` -/
+theorem lu_control_shape : luCtl = luCtlCanonical := by decide
+
+/-- **refinement**: the translated-control algorithms the driver runs against the real code ARE the hand-written algorithms of
+    `Model/C09LU.lean` (about which sections 4, 6, 7 speak) — for every SIMD type, arithmetic, size, input -/
+theorem translated_control_refines (chk : Option (CmpOpName → K → Bool)) (piv : Bool) (A : Mat (V K) n) (b : Vector (V K) n)
+    (i : Fin n) :
+    pivotSearchT X R luCtl A i = pivotSearch X R A i ∧
+    determinantT X R luCtl piv A = some (determinant X R piv A) ∧
+    solveT X R luCtl piv A b = solve X R piv A b ∧
+    invertT X R luCtl piv A = invert X R piv A ∧
+    solveCT X R luCtl chk piv A b = solveC X R chk piv A b ∧
+    invertCT X R luCtl chk piv A = invertC X R chk piv A := by
+  rw [lu_control_shape]
+  exact ⟨pivotSearchT_canonical X R A i, determinantT_canonical X R piv A, solveT_canonical X R piv A b,
+    invertT_canonical X R piv A, solveCT_canonical X R chk piv A b, invertCT_canonical X R chk piv A⟩
+
+include hX in
+/-- **the translated determinant is lane-wise and never throws**, mixed singular / regular lanes included -/
+theorem det_translated_lanewise (piv : Bool) (A : Mat (V K) n) (l : Fin L) :
+    ∃ d, determinantT X R luCtl piv A = some d ∧
+      determinantT (V := fun α => α) SimdLike.scalar R luCtl piv (laneMat X l A) = some (X.lane l d) := by
+  refine ⟨determinant X R piv A, ?_, ?_⟩
+  · rw [lu_control_shape]; exact determinantT_canonical X R piv A
+  · rw [lu_control_shape, determinantT_canonical, determinant_lanewise X hX R piv A l]
+
+include hX in
+/-- **the translated solve**: a returned solution is the scalar solution in every lane … -/
+theorem solve_translated_lanewise (piv : Bool) (A : Mat (V K) n) (b x : Vector (V K) n) (h : solveT X R luCtl piv A b = some x)
+    (l : Fin L) :
+    solveT (V := fun α => α) SimdLike.scalar R luCtl piv (laneMat X l A) (laneVec X l b) = some (laneVec X l x) := by
+  rw [lu_control_shape, solveT_canonical] at h ⊢
+  exact solve_lanewise_some X hX R piv A b x h l
+
+include hX in
+/-- … and it throws exactly if the scalar solve throws for some lane -/
+theorem solve_translated_throws_iff (piv : Bool) (A : Mat (V K) n) (b : Vector (V K) n) :
+    solveT X R luCtl piv A b = none ↔
+      ∃ l, solveT (V := fun α => α) SimdLike.scalar R luCtl piv (laneMat X l A) (laneVec X l b) = none := by
+  rw [lu_control_shape]
+  simp only [solveT_canonical]
+  exact solve_throws_iff X hX R piv A b
+
+include hX in
+theorem invert_translated_lanewise (piv : Bool) (A B : Mat (V K) n) (h : invertT X R luCtl piv A = some B) (l : Fin L) :
+    invertT (V := fun α => α) SimdLike.scalar R luCtl piv (laneMat X l A) = some (laneMat X l B) := by
+  rw [lu_control_shape, invertT_canonical] at h ⊢
+  exact invert_lanewise_some X hX R piv A B h l
+
+include hX in
+theorem invert_translated_throws_iff (piv : Bool) (A : Mat (V K) n) :
+    invertT X R luCtl piv A = none ↔
+      ∃ l, invertT (V := fun α => α) SimdLike.scalar R luCtl piv (laneMat X l A) = none := by
+  rw [lu_control_shape]
+  simp only [invertT_canonical]
+  exact invert_throws_iff X hX R piv A
+
+include hX in
+/-- **the LU factors themselves are lane-wise** (mode of `invert`, `throwEarly`): if the SIMD decomposition succeeds, the scalar
+    decomposition of lane `l`'s matrix succeeds, and its factors `L\U`, **its recorded pivot rows** and its flag are lane `l` of the
+    SIMD factors, pivot vector and mask — although every lane may exchange different rows in every step -/
+theorem lu_factors_lanewise (piv : Bool) (A : Mat (V K) n) (st : LUState (V := V) (K := K) (n := n) (Vector (V (Fin n)) n))
+    (h : luDecompT X R luCtl (elimPivotT X (K := K) luCtl) luCtl.invertThrowEarly piv A (Vector.ofFn fun i => X.bcast i) = some st)
+    (l : Fin L) :
+    luDecompT (V := fun α => α) SimdLike.scalar R luCtl (elimPivotT (V := fun α => α) SimdLike.scalar (K := K) luCtl)
+        luCtl.invertThrowEarly piv (laneMat X l A) (Vector.ofFn fun i => i) =
+      some { A := laneMat X l st.A, aux := st.aux.map (X.lane l), ns := X.lane l st.ns } := by
+  rw [lu_control_shape, luDecompT_canonical, elimPivotT_canonical] at h ⊢
+  exact luFactors_throwEarly X hX R piv A st h l
+
+include hX in
+/-- **… and without `throwEarly`** (mode of `determinant`): both decompositions return; lane `l` of the final mask is the scalar
+    run's flag whatever the other lanes do (a lane that turned singular keeps eliminating with inf/NaN without disturbing the
+    others), and in every lane that stays nonsingular the factors and the sign of the permutation are the scalar run's -/
+theorem lu_factors_lanewise_noThrow (piv : Bool) (A : Mat (V K) n) (l : Fin L) :
+    ∃ st sts, luDecompT X R luCtl (elimDetT X R luCtl) luCtl.detThrowEarly piv A (X.bcast R.one) = some st ∧
+      luDecompT (V := fun α => α) SimdLike.scalar R luCtl (elimDetT (V := fun α => α) SimdLike.scalar R luCtl)
+        luCtl.detThrowEarly piv (laneMat X l A) R.one = some sts ∧
+      X.lane l st.ns = sts.ns ∧ (sts.ns = true → laneMat X l st.A = sts.A ∧ X.lane l st.aux = sts.aux) := by
+  rw [lu_control_shape]
+  simp only [luDecompT_canonical, elimDetT_canonical]
+  exact luFactors_noThrow X hX R piv A l
+
+end TranslatedLU
+
+-- non-vacuity: the translated table drives the computation (mixed lanes, different pivot rows per lane) …
+example : determinantT (SimdLike.loop 2) intArith luCtl true exampleMat = some #v[-6, 0] := by decide +kernel
+example : (pivotSearchT (SimdLike.loop 2) intArith luCtl regularMat 0).2 = #v[1, 2] := by decide +kernel
+example : solveT (SimdLike.loop 2) intArith luCtl true exampleMat #v[#v[2, 1], #v[1, 1], #v[1, 1], #v[3, 1]] = none ∧
+    solveT (SimdLike.loop 2) intArith luCtl true regularMat #v[#v[2, 1], #v[1, 1], #v[1, 5], #v[3, 1]] =
+      some #v[#v[1, 1], #v[1, 1], #v[1, 1], #v[1, 1]] := by decide +kernel
+example : invertT (SimdLike.loop 2) intArith luCtl true exampleMat = none ∧
+    (invertT (SimdLike.loop 2) intArith luCtl true regularMat).isSome = true := by decide +kernel
+-- … the hypothesis of `lu_factors_lanewise` is satisfiable, and the recorded pivot rows differ between the lanes
+example : ((luDecompT (SimdLike.loop 2) intArith luCtl (elimPivotT (SimdLike.loop 2) (K := Int) luCtl) luCtl.invertThrowEarly true
+    regularMat (Vector.ofFn fun i => (SimdLike.loop 2).bcast i)).map fun st => st.aux[0]) = some #v[1, 2] := by decide +kernel
+
+-- … and a table that deviates in ONE decision computes something else (the theorems are about the table, not about a constant):
+-- an `imax` that is never updated leaves both regular lanes without their pivot rows; a determinant that throws early throws
+example : determinantT (SimdLike.loop 2) intArith { luCtl with imaxTK := false } true regularMat = some #v[0, 0] ∧
+    determinantT (SimdLike.loop 2) intArith luCtl true regularMat = some #v[-6, -5] ∧
+    determinantT (SimdLike.loop 2) intArith { luCtl with detThrowEarly := true } true exampleMat = none := by decide +kernel
+
+-- ------------------------------------------------------------------------------------------------
+-- 9. (round 4) the matrix-vector kernels are TRANSLATED: `Gen.kernel_mv … kernel_usmhv` are read off densematrix.hh on every run
+--    (a plain loop nest with one update statement; anything else — a test, a mask reduction, an early return — is outside the
+--    translator's grammar), `kernelRunN` / `kernelRunT` (Model/C09K.lean, what the driver runs) execute them
+-- ------------------------------------------------------------------------------------------------
+section TranslatedKernels
+variable {V : Type → Type} {L : Nat} (X : SimdLike V L) (hX : X.Lawful) {K : Type} (R : Arith K) {r c : Nat}
+
+/-- all eleven kernels of densematrix.hh are in the translated table -/
+theorem kernel_table_complete :
+    kernelTable.map (·.1) = ["mv", "mtv", "umv", "umtv", "umhv", "mmv", "mmtv", "mmhv", "usmv", "usmtv", "usmhv"] := by decide
+
+include hX in
+/-- **every kernel shape of the grammar is lane-wise** — for every form of the loop nest, with or without initialisation, `+=` or
+    `-=`, scaled by a per-lane `alpha` or not, conjugated (by any scalar function `cj`) or not, for every rectangular size, every
+    lawful SIMD type and every arithmetic: lane `l` of the result is the same kernel on lane `l` of matrix, vectors and `alpha` -/
+theorem kernels_translated_lanewise (cj : K → K) (s : KShape) (alpha : V K) (A : RMat (V K) r c)
+    (x : Vector (V K) c) (y : Vector (V K) r) (xt : Vector (V K) r) (yt : Vector (V K) c) (l : Fin L) :
+    laneVec X l (kernelRunN X R cj s alpha A x y) =
+      kernelRunN (V := fun α => α) SimdLike.scalar R cj s (X.lane l alpha) (laneRMat X l A) (laneVec X l x) (laneVec X l y) ∧
+    laneVec X l (kernelRunT X R cj s alpha A xt yt) =
+      kernelRunT (V := fun α => α) SimdLike.scalar R cj s (X.lane l alpha) (laneRMat X l A) (laneVec X l xt) (laneVec X l yt) :=
+  ⟨kernelRunN_lanewise X hX R l cj s alpha A x y, kernelRunT_lanewise X hX R l cj s alpha A xt yt⟩
+
+include hX in
+/-- in particular the eleven kernels as they are in the source now (whatever options the translator found) -/
+theorem kernels_of_table_lanewise (name : String) (s : KShape) (_h : kernelTable.lookup name = some s) (cj : K → K) (alpha : V K)
+    (A : RMat (V K) r c) (x : Vector (V K) c) (y : Vector (V K) r) (xt : Vector (V K) r) (yt : Vector (V K) c) (l : Fin L) :
+    laneVec X l (kernelRunN X R cj s alpha A x y) =
+      kernelRunN (V := fun α => α) SimdLike.scalar R cj s (X.lane l alpha) (laneRMat X l A) (laneVec X l x) (laneVec X l y) ∧
+    laneVec X l (kernelRunT X R cj s alpha A xt yt) =
+      kernelRunT (V := fun α => α) SimdLike.scalar R cj s (X.lane l alpha) (laneRMat X l A) (laneVec X l xt) (laneVec X l yt) :=
+  kernels_translated_lanewise X hX R cj s alpha A x y xt yt l
+
+end TranslatedKernels
+
+-- non-vacuity (explicit shapes, so that a harmless change of an option in the source does not disturb the examples):
+-- `y -= alpha A x` with a per-lane alpha on a 2×3 matrix of two lanes, and the hermitian `y += A^H x`
+example : kernelRunN (SimdLike.loop 2) intArith id { form := .n, init := false, sub := true, scaled := true, conj := false }
+    (#v[2, 0] : Vec Int 2) (#v[#v[#v[1, 2], #v[0, 1], #v[2, 0]], #v[#v[0, 1], #v[1, 1], #v[1, 1]]] : RMat (Vec Int 2) 2 3)
+    #v[#v[1, 1], #v[2, 1], #v[3, 1]] #v[#v[10, 10], #v[20, 20]] = #v[#v[-4, 10], #v[10, 20]] := by decide +kernel
+example : kernelRunT (SimdLike.loop 2) intArith (fun z => -z) { form := .t, init := false, sub := false, scaled := false, conj := true }
+    (#v[1, 1] : Vec Int 2) (#v[#v[#v[1, 2], #v[0, 1], #v[2, 0]], #v[#v[0, 1], #v[1, 1], #v[1, 1]]] : RMat (Vec Int 2) 2 3)
+    #v[#v[1, 1], #v[2, 1]] #v[#v[0, 0], #v[0, 0], #v[0, 0]] = #v[#v[-1, -3], #v[-2, -2], #v[-4, -1]] := by decide +kernel
+example : kernelTable.lookup "usmhv" = some kernel_usmhv := by decide
 
 end DV.C09
